@@ -67,7 +67,9 @@ class CompositeFrontend(ConstrainedFrontend):
 
     def __setstate__(self, s):
         self._solvers, self._template_frontend, self._unsat, self._track, base_state = s
-        self._owned_solvers = weakref.WeakSet(self._solver_list)
+        # children may be shared with other composites unpickled along with this one (a solver and its branches):
+        # own none of them, so that the first change to a child copies it
+        self._owned_solvers = weakref.WeakSet()
         # which children were still unchecked is not part of the pickle: have every one of them checked again
         self._unchecked_solvers = weakref.WeakSet(self._solver_list)
         super().__setstate__(base_state)
